@@ -237,3 +237,49 @@ pub fn set_sweep_horizons(fuel: u64, max_stack: usize) {
     fancy_regex::verif::set_fuel(fuel);
     fancy_regex::verif::set_max_stack(max_stack);
 }
+
+/// Validate every span of a successful captures call and exercise `Match::as_str`, `range`, and
+/// both `Index` impls (C05). Returns a description of the first problem.
+pub fn validate_captures(re: &Regex, text: &str, pos: usize) -> Result<Out, String> {
+    let fuel_before = fancy_regex::verif::stats().fuel_exhausted;
+    let r = catch_unwind(AssertUnwindSafe(|| -> Result<Out, String> {
+        match re.captures_from_pos(text, pos) {
+            Ok(Some(c)) => {
+                for i in 0..c.len() {
+                    if let Some(m) = c.get(i) {
+                        let (s, e) = (m.start(), m.end());
+                        if !(s <= e && e <= text.len() && text.is_char_boundary(s) && text.is_char_boundary(e)) {
+                            return Err(format!("group {} has invalid span ({}, {}) in a text of {} bytes", i, s, e, text.len()));
+                        }
+                        let a = m.as_str();
+                        let idx: &str = &c[i];
+                        if a != idx || m.range() != (s..e) {
+                            return Err(format!("group {}: as_str / Index / range disagree", i));
+                        }
+                    }
+                }
+                if c.get(0).is_none() {
+                    return Err("group 0 is None on a successful search".into());
+                }
+                Ok(Out::Match(caps_to_groups(&c)))
+            }
+            Ok(None) => Ok(Out::NoMatch),
+            Err(e) => Ok(runtime_err(&e, fuel_before)),
+        }
+    }));
+    match r {
+        Ok(x) => x,
+        Err(p) => Err(format!("panic: {}", panic_msg(p))),
+    }
+}
+
+pub fn replacen_str(re: &Regex, text: &str, n: usize, rep: &str) -> Result<(String, bool), String> {
+    match catch_unwind(AssertUnwindSafe(|| re.try_replacen(text, n, rep))) {
+        Ok(Ok(c)) => {
+            let borrowed = matches!(c, std::borrow::Cow::Borrowed(_));
+            Ok((c.into_owned(), borrowed))
+        }
+        Ok(Err(e)) => Err(format!("Err({})", err_kind(&e))),
+        Err(p) => Err(format!("Panic({})", panic_msg(p))),
+    }
+}
